@@ -119,6 +119,14 @@ class FakeTime:
     def time(self):
         return float(self.env.now)
 
+    def monotonic(self):
+        return float(self.env.now)
+
+    perf_counter = monotonic
+
+    def time_ns(self):
+        return int(self.env.now) * 10 ** 9
+
     def sleep(self, dt):
         self.env.on_sleep(dt)
 
@@ -253,9 +261,12 @@ class Env:
         realnode.install_inert_threads()
         InertThread.instances = []
         ft = FakeTime(self)
-        for m in (node_mod, peer_mod, helpers_mod):
-            self.saved[(m, "time")] = m.time
-            m.time = ft
+        for m in (node_mod, peer_mod, helpers_mod, app_mod):
+            # (every module of the node package that uses the clock sees the virtual one; a module that does not import
+            # `time` today is given it only if it has the name)
+            if hasattr(m, "time"):
+                self.saved[(m, "time")] = m.time
+                m.time = ft
         self.saved[(node_mod, "select")] = node_mod.select
         node_mod.select = FakeSelect(self)
         self.saved[(node_mod, "socket")] = node_mod.socket
@@ -303,11 +314,15 @@ class NBQueue:
         self.items = []
 
     def put(self, x, block=True, timeout=None):
+        if block and timeout is not None and timeout < 0:
+            raise ValueError("'timeout' must be a non-negative number")        # as queue.Queue does
         if self.maxsize > 0 and len(self.items) >= self.maxsize:
             raise _queue.Full()
         self.items.append(x)
 
     def get(self, block=True, timeout=None):
+        if block and timeout is not None and timeout < 0:
+            raise ValueError("'timeout' must be a non-negative number")
         if not self.items:
             raise _queue.Empty()
         return self.items.pop(0)
